@@ -22,6 +22,7 @@ import (
 	"runtime/debug"
 	"strings"
 	"sync"
+	"time"
 	"unsafe"
 
 	"verif.local/engine/vsched"
@@ -383,6 +384,17 @@ func (f *Fabric) exchange(req *http.Request, body []byte) (*http.Response, error
 	_ = srvID
 	st := &stream{x: x, header: http.Header{}, reqCtx: req.Context(), srvCancel: srvCancel, onHeaders: f.OnHeaders, srvCtxID: srvID, nonAtomic: NonAtomicWriter}
 	x.st = st
+	if dl, ok := req.Context().Deadline(); ok && req.Cancel != nil {
+		// http.Client.Timeout with a RoundTripper that is not net/http's own: net/http sets
+		// Request.Cancel and arms a wall-clock timer around the whole exchange, the reading of the
+		// response body included. The library never sets Request.Cancel itself, so this is that timer;
+		// it is modelled on the virtual clock (whole seconds, so that executions stay reproducible).
+		d := time.Until(dl).Round(time.Second)
+		vsched.Go("memnet.client-timeout", func() {
+			vsched.Sleep(d)
+			x.BreakStream(errors.New("context deadline exceeded (Client.Timeout or context cancellation while reading body)"))
+		})
+	}
 	sreq, err := http.NewRequestWithContext(srvCtx, req.Method, req.URL.String(), bytes.NewReader(body))
 	if err != nil {
 		srvCancel()
